@@ -63,7 +63,7 @@ func c09(c *ctx) {
 	for _, host := range []string{"absent", "ok", "varied", "dup"} {
 		for _, up := range []string{"absent", "ok", "varied", "dup", "wrong"} {
 			for _, co := range []string{"absent", "ok", "varied", "dup", "wrong"} {
-				for _, ve := range []string{"absent", "ok", "varied", "dup", "wrong", "other"} {
+				for _, ve := range []string{"absent", "ok", "varied", "dup", "wrong", "other", "lead0"} {
 					for _, ky := range []string{"absent", "ok", "varied", "dup", "len23", "len25", "empty", "nonb64", "latebad", "earlybad"} {
 						k++
 						if false {
